@@ -12,7 +12,7 @@ BUILT = {
             "Trusts Lean's kernel, axioms propext/Classical.choice/Quot.sound, the hand-written model Str.lean/Cp1252.lean and the correspondence harness; Python's cp1252 codec is modelled as a table and compared exhaustively.",
             "DESIGN.md §6 C13"),
 }
-NOTE = "Trusts Lean's kernel, axioms propext/Classical.choice/Quot.sound, the hand-written model under lean/TdfModel and the correspondence harness (differential testing); numpy/CPython primitives are modelled, not verified (DESIGN.md §4)."
+NOTE = "Trusts Lean's kernel, axioms propext/Classical.choice/Quot.sound, the hand-written model under lean/TdfModel and the correspondence harness (differential testing; every session runs a second time in an interpreter started with -O); numpy/CPython primitives are modelled, not verified (DESIGN.md §4)."
 BUILT.update({
     "C01": ("Lean 4 round-trip theorems dec(enc x ++ rest) = (x, rest) for all nine block models (induction over item lists and frame masks) + seeded correspondence of model enc/dec with _write/_build, incl. arrays of four provenances and object life cycles (use, edit in place, use again)",
             "Proof over the model for every valid block of the nine types (unbounded items, frames, masks); tied to /repo by byte-equality of encodings and equality of decoded values on seeded shape-directed blocks and on blocks edited in place after a first use, each also judged by decode(encode(x)) == x on the real code.",
@@ -54,7 +54,7 @@ BUILT["C20"] = ("Lean 4 separation theorems on an object-store model (fresh allo
 BUILT["C14"] = ("Lean 4 theorems eq a b = true <-> a = b for the nine block equalities as implemented (byte-level ones via injectivity of enc from C01; field-wise ones via zipAll + length/channel-map guards), eq with decode(encode a), append detected, file equality; + real == on generated pairs (same / rebuilt / round-tripped / one change / +-1 item / compared, then edited in place) and on pairs of files",
             "Proof over the model (samples and scalars as bit patterns); the real __eq__ of every block class and of Tdf is evaluated in both directions on pairs that are identical, round-tripped or differ in exactly one element, and compared with the model and with equality of the abstract contents.",
             NOTE + " numpy's allclose tolerance and ±0/NaN scalar corner cases are outside the model; unequal pairs differ far beyond tolerance.", "DESIGN.md §6 C14")
-CONT = "Lean 4 refinement proof: byte-level L0 model of add/remove/replace/setters (seek/write/truncate) simulates the list-of-blocks spec on every well-formed layout (add_sim, remove_sim, run_sim by induction over histories, any table length); "
+CONT = "Lean 4 refinement proof: byte-level L0 model of add/remove/replace/setters (seek/write/truncate) simulates the list-of-blocks spec on every compact layout (add_sim, remove_sim, run_sim by induction over histories, any table length); table-level theorems for ANY well-formed table (entries in any order, gaps, unused slots anywhere: ForeignInv is an invariant of every history; remove/add frame conditions; a refused replace touches nothing); "
 BUILT.update({
     "C03": (CONT + "corollary wfB(image)=true; + seeded and exhaustive history correspondence (incl. one block object through its whole life in a file, a long-lived Tdf object pausing while other objects change the file, well-formed non-compact start files) with Lean's wfB judging the real bytes after every call",
             "Proof over the model for every finite history from every compact start state and every table length; tied to /repo by running seeded histories on real files and on the model, comparing the file abstraction and Tdf.entries after every call; Lean's decidable WF predicate judges the real bytes.",
